@@ -239,6 +239,34 @@ pub fn c18() -> i32 {
             }
         }
     }
+    // events never drained on a flaky link (NetworkInterrupted / NetworkResumed pile up), with an
+    // application that also polls on its own before every tick: the sizes are read after those
+    // bare polls too
+    for (w, polls) in [(8usize, true), (2, true), (8, false)] {
+        let mut s = base_scn("c18-undrained-flaky", "1+1", w, 0, false, Pred::RepeatLast, Program::Changing, 1);
+        for p in s.peers.iter_mut() {
+            p.notify_ms = 50;
+            p.timeout_ms = 5000;
+            p.drain = false;
+        }
+        let (a, b) = (s.peers[0].addr, s.peers[1].addr);
+        let mut st = 5;
+        while st + 8 < rounds {
+            s.outages.push(Outage { from: b, to: a, start: st, len: 6, classes: CLASS_ALL });
+            s.outages.push(Outage { from: a, to: b, start: st, len: 6, classes: CLASS_ALL });
+            st += 12;
+        }
+        if polls {
+            for r in 0..rounds {
+                s.script.push(ScriptItem { round: r, node: 0, action: Action::Poll });
+            }
+        }
+        s.name = format!("{} polls-before-every-tick={polls}", s.name);
+        s.horizon = rounds;
+        s.probe = 0;
+        s.checks = CK_C02 | CK_C04;
+        scns.push(s);
+    }
     // a spectator is disconnected explicitly (disconnect_player with its handle), or dies, while
     // the players go on: nothing may keep growing for it
     for (tp, w) in [("1+1", 8usize), ("2+1", 2), ("1+1", 0)] {
